@@ -119,7 +119,7 @@ func c04model(c *Ctx, ruleFold, ruleIter string) {
 		return
 	}
 	m.it.stub = nil
-	m.it.maxDepth = 12
+	m.it.maxDepth = 48
 	type verdict struct{ msg, unk string }
 	res := map[string]*verdict{}
 	order := []string{}
@@ -176,13 +176,17 @@ func c04model(c *Ctx, ruleFold, ruleIter string) {
 					v.msg = fmt.Sprintf("%s.Bounds() = %s, the smallest box around its %d vertices is %s", g.name, showVal(p.s), len(g.verts), want)
 				}
 			case "Points":
-				it, ok := out[0].(oFunc)
-				if !ok {
-					v.unk = fmt.Sprintf("%s.Points() does not return a closure: %s", g.name, showVal(out[0]))
+				it := out[0]
+				switch it.(type) {
+				case oFunc, oBound, oFuncRef:
+				default:
+					v.unk = fmt.Sprintf("%s.Points() does not return a function: %s", g.name, showVal(out[0]))
+				}
+				if v.unk != "" {
 					break
 				}
 				for k, wantP := range g.verts {
-					r, why := m.it.CallFunc(it, nil)
+					r, why := m.it.CallValue(it, nil)
 					if why != "" {
 						if len(why) > 6 && why[:6] == "panic:" {
 							v.msg = fmt.Sprintf("%s: call %d of %d of the Points() iterator panics (%s)", g.name, k+1, len(g.verts), why)
